@@ -241,6 +241,49 @@ def run_ctx(ctx):
         obs["gen"] = (x, y)
         if P["pairf"] and R.has("pc_map"):
             obs["pair"] = pair_obs(R)
+        # chain discipline of library entry points on their early-exit paths: after a call with a degenerate scalar
+        # (0, a non-zero multiple of the order, its neighbours, negative) the handler chain must be what it was
+        # (monitored inside R.call: a foreign innermost frame raises MonitorViolation) and an error raised right
+        # afterwards must still be delivered to the caller's own handler
+        n_ = P["n"]
+        zero_fp = R.fp_new(0)
+        out_fp = R.fp_new()
+        R.call("ep_curve_get_gen", g)
+        for kc, kv2 in (("0", 0), ("n", n_), ("2n", 2 * n_), ("-n", -n_), ("n+1", n_ + 1), ("-1", -1), ("1", 1)):
+            R.bn_put(k, kv2)
+            exp2 = C.mul(kv2 % n_, G)
+            for fn in ("ep_mul_gen", "ep_mul_basic", "ep_mul_slide", "ep_mul_monty", "ep_mul_lwnaf", "ep_mul_lwreg", "ep_mul",
+                       "ep_mul_sim_gen"):
+                if not R.has(fn):
+                    continue
+                try:
+                    if fn == "ep_mul_gen":
+                        res = R.call(fn, r, k)
+                    elif fn == "ep_mul_sim_gen":
+                        res = R.call(fn, r, k, g, k)
+                    else:
+                        res = R.call(fn, r, g, k)
+                except MonitorViolation as e:
+                    ctx.evaluations += 1
+                    ctx.fail("chain|%s|k=%s|%s" % (fn, kc, e.kind), {"set": name, "detail": e.detail})
+                    continue
+                if not res.caught and fn != "ep_mul_sim_gen":
+                    x, y, z, co, can = R.ep_get(r)
+                    got = None if z == 0 else (x, y)
+                    if z not in (0, 1):
+                        R.call("ep_norm", r, r)
+                        x, y, z, co, can = R.ep_get(r)
+                        got = None if z == 0 else (x, y)
+                    ctx.check(got == exp2, "chain|%s|k=%s|value" % (fn, kc), {"set": name})
+                # the next error must reach the caller's handler (fp_inv(0) throws ERR_NO_VALID)
+                try:
+                    e2 = R.call("fp_inv", out_fp, zero_fp)
+                    ctx.check(e2.caught, "chain|%s|k=%s|next-error-not-delivered" % (fn, kc), {"set": name, "err": e2.err})
+                except MonitorViolation as e:
+                    ctx.evaluations += 1
+                    ctx.fail("chain|%s|k=%s|after-next-error|%s" % (fn, kc, e.kind), {"set": name, "detail": e.detail})
+        R.free(zero_fp)
+        R.free(out_fp)
         return obs
 
     # reference observations from a fresh context per selection
